@@ -74,6 +74,30 @@ func TestC01(t *testing.T) {
 	defer adA.Free()
 	defer dstA.Free()
 
+	// earlier outputs that live in memory the implementation allocated (nil dst,
+	// capacity one byte short) are kept and re-verified after later calls: the
+	// implementation must not retain and later write through an alias
+	type kept struct {
+		out, expect []byte
+		desc        string
+	}
+	var ring []kept
+	verifyRing := func() {
+		for _, k := range ring {
+			m.Count("earlier_outputs_reverified", 1)
+			if !bytes.Equal(k.out, k.expect) {
+				m.Violation("earlier-output-changed:"+k.desc, map[string]any{"which": k.desc, "now": mon.Hex(k.out), "was": mon.Hex(k.expect)})
+			}
+		}
+	}
+	keep := func(out []byte, desc string) {
+		ring = append(ring, kept{out, append([]byte(nil), out...), desc})
+		if len(ring) > 6 {
+			ring = ring[1:]
+		}
+	}
+	defer verifyRing()
+
 	// exec runs one (kind, key, nonce, pt, ad, dst layout, alignment) case on
 	// every path and judges Seal and Open against the spec. tag names the
 	// constructed accumulator family ("" for the random stream).
@@ -133,7 +157,30 @@ func TestC01(t *testing.T) {
 			}
 			return false
 		}
+		keyCopy, nonceCopy := append([]byte(nil), key...), append([]byte(nil), nonce...)
 		aeadv := newAEAD(kind, key)
+		// inputs are not outputs: after every call nonce, ad and (unless it is
+		// the documented in-place output) the source must be unchanged
+		inputsIntact := func(op, path string, gsrc, src, gad []byte) {
+			changed := ""
+			switch {
+			case !bytes.Equal(gad, ad):
+				changed = "ad"
+			case !bytes.Equal(nonce, nonceCopy):
+				changed = "nonce"
+			case !bytes.Equal(key, keyCopy):
+				changed = "key"
+			case !bytes.Equal(gsrc, src):
+				changed = "source"
+			}
+			m.Count("inputs_verified_unchanged", 1)
+			if changed != "" {
+				w := wit(path, op)
+				w["changed"] = changed
+				m.Violation("input-modified:"+op+":"+path+":"+changed, w)
+			}
+		}
+		verifyRing()
 		for _, path := range ps {
 			cls := fmt.Sprintf("%s %s %s n%%16=%d ad=%s dst=%d %s %s", path, kindName(kind), asmBranch(n), n%16, adClass(adlen), dstv, alignName(align), tag)
 			// ---------- Seal ----------
@@ -187,6 +234,14 @@ func TestC01(t *testing.T) {
 				m.Violation("panic:seal:"+path, w)
 			default:
 				c01Judge(m, "seal", path, d, out, want, wit)
+				if inplace {
+					inputsIntact("seal", path, nil, nil, gad)
+				} else {
+					inputsIntact("seal", path, gpt, pt, gad)
+				}
+				if dstv == 0 || (short && !sameBacking(out, dst)) {
+					keep(out, "seal:"+path)
+				}
 				if d != nil && !short && sameBacking(out, dst) {
 					m.Count("seal_in_capacity", 1)
 				}
@@ -233,6 +288,14 @@ func TestC01(t *testing.T) {
 				m.Violation("open-rejects-authentic:"+path+":"+kindName(kind), w)
 			default:
 				c01Judge(m, "open", path, d, out, pt, wit)
+				if inplace {
+					inputsIntact("open", path, gct[n:], want[n:], gad) // the tag bytes are input only
+				} else {
+					inputsIntact("open", path, gct, want, gad)
+				}
+				if dstv == 0 || (short && !sameBacking(out, dst)) { // short with an empty payload fits dst: that result lives in the harness arena
+					keep(out, "open:"+path)
+				}
 			}
 		}
 
